@@ -158,6 +158,44 @@ def role_swapped(rnd: random.Random, rows: list[tuple[str, str]], per_kind: int,
     return out
 
 
+FOREIGN_IDS = ("29:151550", "32:111111", "37:222222", "39:159057", "30:111222", "10:123456", "13:111111", "02:000921",
+               "01:999999", "04:999999", "34:999999", "20:333444", "22:555666", "03:777888", "07:999000")
+
+
+def foreign_kit(rnd: random.Random, rows: list[tuple[str, str]], per_kind: int) -> list[tuple]:
+    """"Packets that are valid for other systems (another controller, HVAC kit, a neighbour's devices)": after the
+    history has established its system, every known I / RP verb|code - payloads drawn from the library's own regex
+    for it, extremes included - sent by devices that are *not* of this history, in the three address shapes.  Views
+    are read now and then; the whole observation (snapshot, restore, probes: is the known system still tracked?)
+    follows at the end and after the silences."""
+    from harness import gen
+
+    ts = rows[-1][0]
+    out: list[tuple] = list(rows)
+    pay = gen.schema_payloads(rnd, max(2, per_kind))
+    kinds = sorted(k for k in pay if k[1] in (" I", "RP"))
+    rnd.shuffle(kinds)
+    n = 0
+    for (code, verb) in kinds:
+        members = pay[(code, verb)]
+        rnd.shuffle(members)
+        for m in members[:per_kind]:
+            dev, oth = rnd.sample(FOREIGN_IDS, 2)
+            shape = rnd.randrange(3)
+            if verb == "RP":
+                fr = gen.make_frame(verb, dev, rnd.choice(("18:000730", oth)), "--:------", code, m)
+            elif shape == 0:
+                fr = gen.make_frame(verb, dev, "--:------", dev, code, m)
+            elif shape == 1:
+                fr = gen.make_frame(verb, "--:------", "--:------", dev, code, m)
+            else:
+                fr = gen.make_frame(verb, dev, oth, "--:------", code, m)
+            if accepted(fr):
+                n += 1
+                out.append((ts, fr, "obs") if n % 40 == 0 else (ts, fr))
+    return out
+
+
 # --------------------------------------------------------------------------------------
 # the observation harness
 
@@ -339,6 +377,47 @@ async def observe(gwy: Any, tr: Any, rec: Recorder, state: dict, verbose: bool =
             await vloop.drain()
             after = proj(gwy, tr)
             rec.add("opx", "restore", res, before, after, detail="injected: the replay transport cannot be created")
+            if after != before:
+                return False
+            # ... a snapshot one of whose entries is not a packet line at all (a hand-edited / truncated cache file) ...
+            bad = dict(pk)
+            keys = sorted(bad)
+            bad[keys[len(keys) // 2] if keys else "2026-01-01T00:00:00.000000"] = None  # type: ignore[assignment]
+            before = proj(gwy, tr)
+            try:
+                await asyncio.wait_for(gwy._restore_cached_packets(bad), timeout=600)
+                res = "ok"
+            except Exception as err:  # noqa: BLE001
+                res = type(err).__name__
+            await vloop.drain()
+            await asyncio.sleep(5)      # whatever the failed restore still has pending has run out
+            await vloop.drain()
+            after = proj(gwy, tr)
+            rec.add("opx", "restore", res, before, after, detail="injected: one entry of the snapshot is not a packet line")
+            if after != before:
+                return False
+            # ... and a restore that is cancelled while its replay is in flight (a caller's start-up time-out)
+            before = proj(gwy, tr)
+            task = asyncio.get_running_loop().create_task(gwy._restore_cached_packets(pk))
+            for _ in range(50):
+                if gwy._engine_state is not None or task.done():
+                    break
+                await asyncio.sleep(0)
+            was_in_flight = gwy._engine_state is not None and not task.done()
+            task.cancel()
+            try:
+                await asyncio.wait_for(asyncio.shield(task), timeout=600)
+                res = "ok"
+            except asyncio.CancelledError:
+                res = "CancelledError"
+            except Exception as err:  # noqa: BLE001
+                res = type(err).__name__
+            await vloop.drain()
+            await asyncio.sleep(5)
+            await vloop.drain()
+            after = proj(gwy, tr)
+            rec.add("opx", "restore", res, before, after,
+                    detail=f"injected: cancelled {'in flight' if was_in_flight else 'before it got going'}")
             if after != before:
                 return False
     if not nodisc:
